@@ -328,6 +328,8 @@ def choose_param_type(rng, desc, meta):
         meta["param_type"] = rng.choice(["python_int", "python_int", "np_int64"])
         return desc
     meta["param_type"] = rng.choice(["python_float", "python_float", "python_float", "np_float64", "np_float32"])
+    if meta.get("offset_class", "none") != "none" and meta["param_type"] == "np_float32":
+        meta["param_type"] = "np_float64"            # single precision cannot hold extent 1 at offset 1e8
     if meta["param_type"] == "np_float32":
         desc = dict(desc)
         for q in PARAM_KEYS:
@@ -399,6 +401,12 @@ class Live:
     def cls(self):
         return type(self.roi).__name__
 
+    def bump_mag(self, m):
+        """The region is about to be placed at coordinates of size m: rounding of its parameters grows accordingly."""
+        if m > self.mag:
+            self.add += TOLA * (m - self.mag) * (1.0 if self.meta.get("param_type") != "np_float32" else TOL32 / TOLA)
+            self.mag = m
+
     def forward(self, x, y):
         for op in self.chain:
             if op[0] == "move":
@@ -418,7 +426,7 @@ class Live:
     def struct(self):
         """Structural features of the live object for signatures."""
         s = {"roi": CLASSNAME[self.kind], "shape": self.kind, "variant": self.meta["variant"], "magnitude": self.meta.get("magnitude", "1"),
-             "param_type": self.meta.get("param_type", "python_float")}
+             "param_type": self.meta.get("param_type", "python_float"), "offset_class": self.meta.get("offset_class", "none")}
         # what the live object holds now (a restored region has Python numbers whatever it was built from)
         inner = getattr(self.roi, "roi_2d", self.roi)
         for att in ("xmin", "xc", "min"):
@@ -638,7 +646,8 @@ def compare(ctx, live, res, x, y, op, presentation, mul=0.0, extra_band=None, ex
         ctx.count("comparisons_theta:%s:%s" % (live.kind, theta_group_of(live.model_theta)))
         ctx.count("theta_class_at_construction:" + live.meta["theta_class"])
     fp = [live.kind, live.meta["variant"], live.meta.get("theta_class"), live.meta.get("closed"), list(live.ops), presentation, fp_extra,
-          theta_group_of(live.model_theta) if live.kind in ("rect", "ellipse") else None, live.meta.get("magnitude", "1")]
+          theta_group_of(live.model_theta) if live.kind in ("rect", "ellipse") else None, live.meta.get("magnitude", "1"),
+          live.meta.get("offset_class", "none")]
     ctx.evaluation(fp, nontrivial=(0 < nin < ncmp))
     bad = (got != inside) & cmp_
     if bad.any():
@@ -716,8 +725,11 @@ def polygon_centre(ctx, live, roi, inner=None):
 
 
 def centre_tol(live, *vals):
-    rel = TOL32 if live.meta.get("param_type") == "np_float32" else 1e-9
-    return rel * (live.mag + live.scale + sum(abs(v) for v in vals))
+    if live.meta.get("param_type") == "np_float32":
+        return TOL32 * (live.mag + live.scale + sum(abs(v) for v in vals))
+    # relative to the extent, plus a few ulps of the coordinates involved (offset >> extent: 1e8 -> 2e-3, far below the
+    # distance between centroid and vertex mean of an unevenly sampled polygon of extent 1)
+    return 1e-9 * live.scale + 1e-11 * (live.mag + sum(abs(v) for v in vals)) + getattr(live, "centre_slack", 0.0)
 
 
 def check_centre(ctx, live, op):
@@ -764,6 +776,7 @@ def step_move(ctx, live, target=None):
     if live.kind == "range":
         c0 = float(guarded(ctx, live, "center", lambda: live.roi.center()))
         t = round(rng.uniform(-6, 6), 3) * live.f if target is None else target[0]
+        live.bump_mag(abs(t))
         guarded(ctx, live, "move_to", lambda: live.roi.move_to(t))
         d = t - c0
         live.chain.append(("move", d, 0.0) if live.desc["ori"] == "x" else ("move", 0.0, d))
@@ -777,6 +790,7 @@ def step_move(ctx, live, target=None):
             ty = c0[1]
         if target is not None:
             tx, ty = target
+        live.bump_mag(max(abs(tx), abs(ty)))
         guarded(ctx, live, "move_to", lambda: live.roi.move_to(tx, ty))
         live.chain.append(("move", tx - c0[0], ty - c0[1]))
         live.model_centre = (tx, ty)
@@ -820,7 +834,9 @@ def step_rotate(ctx, live, how=None, theta2=None):
         resid = abs(((dtheta + math.pi) % (2 * math.pi)) - math.pi)
         if 0.0 < resid <= 1.000001e-9:
             vx, vy = live.forward(np.array(live.desc["vx"]), np.array(live.desc["vy"]))
-            live.add += resid * float(np.hypot(vx - centre[0], vy - centre[1]).max())
+            slack = resid * float(max(np.hypot(vx - centre[0], vy - centre[1]).max(), math.hypot(c0[0] - centre[0], c0[1] - centre[1])))
+            live.add += slack
+            live.centre_slack = getattr(live, "centre_slack", 0.0) + slack
             ctx.count("polygon_rotations_within_snap_angle_margin_widened")
     live.chain.append(("rot", dtheta, centre))
     live.model_theta = live.model_theta + dtheta
@@ -917,6 +933,18 @@ def run_instance_2d(ctx, kind):
         desc = G.scaled(desc, meta["f"])
         if kind == "polygon":
             meta["signed_area_class"] = signed_area_class(desc)
+    # offset >> extent: a region of ordinary extent centred 1e4 .. 1e8 away from the origin, moved near the origin and back
+    # ("far_start"), or an ordinary region moved that far away and back ("near_start")
+    meta["offset_class"] = "none"
+    if meta["magnitude"] == "1" and meta["variant"] not in ("int_params", "tiny") and rng.random() < (0.25 if kind == "polygon" else 0.12):
+        meta["offset_class"] = rng.choice(["far_start", "near_start"])
+        meta["offset"] = [rng.choice([-1.0, 1.0, 0.0, 1.0]) * 10.0 ** rng.randint(4, 8), rng.choice([-1.0, 1.0, 1.0]) * 10.0 ** rng.randint(4, 8)]
+        if meta["offset_class"] == "far_start":
+            desc = G.translated(desc, meta["offset"][0], meta["offset"][1])
+            if kind == "polygon":
+                meta["signed_area_class"] = signed_area_class(desc)
+        ctx.count("offset_class_instances")
+        ctx.count("offset_class:" + meta["offset_class"])
     desc = choose_param_type(rng, desc, meta)
     if kind in ("rect", "ellipse") and desc["theta"] == 0.0 and rng.random() < 0.5:
         meta["theta_none"] = True
@@ -943,6 +971,9 @@ def run_instance_2d(ctx, kind):
         ctx.count("long_move_rotate_histories")
     if rng.random() < 0.12:
         steps.insert(rng.randrange(len(steps) + 1), "fault")
+    if meta["offset_class"] != "none":
+        steps = ["offset_go"] + [rng.choice(STEPS[kind]) for _ in range(rng.randint(0, 2))] + ["offset_return"] + \
+                [rng.choice(STEPS[kind]) for _ in range(rng.randint(0, 1))]
     start_centre = None
     usable = polygon_centre_usable(live)
     if not usable:
@@ -970,6 +1001,20 @@ def run_instance_2d(ctx, kind):
                 step_rotate(ctx, live, how="rotate_to", theta2=start_theta if start_theta != 0 else 1e-300)
             step_move(ctx, live, target=start_centre)
             ctx.count("histories_returned_to_start")
+        elif s == "offset_go":
+            if not usable:
+                continue
+            home = polygon_centre(ctx, live, live.roi) if kind != "range" else (float(guarded(ctx, live, "center", lambda: live.roi.center())),)
+            if meta["offset_class"] == "far_start":
+                away = tuple(round(rng.uniform(-3, 3), 2) for _ in home)
+            else:
+                away = tuple(o + round(rng.uniform(-3, 3), 2) for o in (meta["offset"] if kind != "range" else meta["offset"][1:]))
+            step_move(ctx, live, target=away)
+        elif s == "offset_return":
+            if not usable:
+                continue
+            step_move(ctx, live, target=home)
+            ctx.count("offset_class_round_trips_completed")
         elif s == "fault":
             step_fault(ctx, live)
         else:
@@ -1017,7 +1062,8 @@ def run_instance_categorical(ctx):
     member = set(cats)
     hist = []
     for step in range(rng.randint(2, 4)):
-        pres = rng.choice(["flat", "2d", "3d", "strided", "broadcast", "component", "empty"])
+        pres = rng.choice(["flat", "2d", "3d", "strided", "broadcast", "component", "empty", "jittered_data", "jittered_component",
+                           "jitter_on_then_off", "jittered_view", "jittered_2d"])
         n = rng.randint(1, 30)
         pool_ = universe + extra
         if family == "int_categories_float_values":
@@ -1039,9 +1085,23 @@ def run_instance_categorical(ctx):
             x = np.broadcast_to(labels[:6][None, :], (3, 6))
         elif pres == "empty":
             x = labels[:0]
-        else:
+        elif pres == "component":
             from glue.core.component import CategoricalComponent
             x = CategoricalComponent(labels)
+        else:
+            # display jitter (+-0.5 on the codes) must not matter: membership is by label
+            from glue.core.component import CategoricalComponent
+            src = labels.reshape(4, 6) if pres == "jittered_2d" else labels
+            if pres == "jitter_on_then_off":
+                comp = CategoricalComponent(src)
+                comp.jitter("uniform")
+                comp.codes
+                comp.jitter(None)
+            else:
+                comp = CategoricalComponent(src, jitter="uniform")
+                comp.codes
+            x = comp if pres == "jittered_component" else (comp.data[::2] if pres == "jittered_view" else comp.data)
+            ctx.count("categorical_jittered_inputs")
         sig = {"roi": "CategoricalROI", "variant": variant, "presentation": pres, "op": hist[-1] if hist else "construct",
                "categories_container": container}
         try:
@@ -1049,7 +1109,9 @@ def run_instance_categorical(ctx):
         except Exception as exc:
             ctx.violation(dict(sig, kind="exception", exc=type(exc).__name__), {"cats": cats, "labels": labels.tolist(), "error": repr(exc)[:200]})
             return
-        ref_in = labels if pres == "component" else np.asarray(x)
+        ref_in = {"component": labels, "jittered_component": labels, "jittered_2d": labels.reshape(4, 6)}.get(pres)
+        if ref_in is None:
+            ref_in = np.asarray(x).view(np.ndarray)
         want = np.array([(v.item() if hasattr(v, "item") else v) in member for v in ref_in.ravel()], dtype=bool).reshape(ref_in.shape)
         ctx.count("comparisons:CategoricalROI")
         ctx.count("comparisons_op:" + sig["op"])
@@ -1339,6 +1401,10 @@ def floors(counters, tier):
     for fam in ("strings", "prefix_strings", "ints", "int_categories_float_values", "float_categories_int_values"):
         if g("variant:categorical:" + fam, 0) < 8:
             out.append("fewer than 8 CategoricalROI instances of family %s" % fam)
+    if g("categorical_jittered_inputs", 0) < 60:
+        out.append("fewer than 60 CategoricalROI comparisons on jittered categorical arrays")
+    if g("offset_class_instances", 0) < 22 or g("offset_class_round_trips_completed", 0) < 15:
+        out.append("fewer than 22 regions with offset >> extent or fewer than 15 completed round trips")
     if g("categorical_values_wider_than_categories", 0) < 80:
         out.append("fewer than 80 CategoricalROI comparisons with tested labels wider than the region's category array")
     for k, need in (("long_move_rotate_histories", 25), ("steps_repeated_identically", 40), ("histories_returned_to_start", 15),
